@@ -19,14 +19,20 @@ open AgModel.Blockstore AgModel.Merkle HBlock
     requester satisfying the progress invariant `RepInv` (`repair_block` establishes it: `repInv_begin`;
     every admissible step keeps it). `evs`: any finite schedule of events at the requester — responses of
     any kind from anybody (correct, NACK, unsolicited, replayed, wrong variant, bad proof, wrong root /
-    index / slot, unsigned shreds, responses about other blocks), timeouts, further `repair_block` calls —
+    index / slot, unsigned shreds, validly signed shreds of other slices or with the other last-slice
+    marker of a Byzantine leader, responses about other blocks), timeouts, further `repair_block` calls —
     that is *fair*: every request about `B` outstanding at any point of the schedule (so every request
     ever issued or re-sent) is, at that point or later, answered by the holder while still outstanding.
     Then after the schedule no request about `B` is outstanding, `get_block(id B)` returns exactly `B`,
     the block was announced (`Block` event to Votor and `pool.add_block(id, parent)`) in exactly the step
     that completed it, and no step panicked.
 
-    `Admissible` (see there) is necessary: `derail_by_last_marker`, `derail_by_tag` below. -/
+    `Admissible` (see `Proofs/RepairRun.lean`) now only says that the responder did not flip the
+    unauthenticated data/coding tag of a shred that passes every check (D15b; necessary: `derail_by_tag`
+    below), plus two typing constraints of the model's response type (`padding_leaf_witness`,
+    `size_class_witness`). Since fix D26 it says nothing about the last-slice marker any more: the hostile
+    schedule that used to derail the repair is admissible (`evilLast_admissible`) and covered by this
+    theorem (`last_marker_no_longer_derails`). -/
 theorem repair_completes (B : HBlock) (env : Nat → Content) (cap : Nat) (hwf : B.WF env cap)
     (hroots : ∀ i, i < B.n → B.root i ≠ 0)
     (sdH : SlotData) (_hH : Holds B cap sdH)
@@ -123,8 +129,11 @@ theorem repaired_node_holds (B : HBlock) (cap : Nat) (σ : Sys) (hinv : RepInv B
     request whose `(last, root, proof)` passes `check_proof_last` against `b`'s hash; for every slice
     `i ≤ last` the answer to `SliceRoot(b, i)` passes `check_proof` against the hash, and the answer to
     `Shred(b, i, j)` for each of the 64 indices is a (leader-signed) shred of slot `b.slot`, slice `i`,
-    index `j`, carrying exactly the slice root that was proven — i.e. it passes every check of
-    `handle_response` (`Valid`) at a requester that recorded that root. Uses C15 `complete`,
+    index `j`, carrying exactly the slice root that was proven and the last-slice flag `i = last` — i.e.
+    it passes every check of `handle_response` (`Valid`, including the flag comparison of fix D26) at a
+    requester that recorded that root and that last slice index. This holds for every held block, also
+    one of a Byzantine leader: a node only ever stores shreds whose flag agrees with its last-slice marker
+    (`FlagInv`), so the fix cannot make an honest holder's answers unacceptable. Uses C15 `complete`,
     `complete_last`. -/
 theorem responder_answers_verify (sd : SlotData) (b : Bid) (blk : Block) (hs : SInv sd) (hcap : sd.dis.cap ≤ 2 ^ 32)
     (hheld : getBlock sd b.hash = some blk) :
@@ -132,16 +141,22 @@ theorem responder_answers_verify (sd : SlotData) (b : Bid) (blk : Block) (hs : S
       ∀ i, i ≤ l → ∃ root π, answer sd (.root b i) = some (.sliceRoot (.root b i) root π) ∧
         checkProof root i b.hash π = true ∧
         ∀ j, j < TOTAL_SHREDS → ∃ s, answer sd (.shred b i j) = some (.shred (.shred b i j) b.slot s true) ∧
-          s.slice = i ∧ s.idx = j ∧ s.root = root ∧
-          ∀ st : RepairSt, rootGet st.sliceRoots (b, i) = some root → Valid st (.shred (.shred b i j) b.slot s true) := by
+          s.slice = i ∧ s.idx = j ∧ s.root = root ∧ s.isLast = decide (i = l) ∧
+          ∀ st : RepairSt, rootGet st.sliceRoots (b, i) = some root → lastGet st.lastSlices b = some l →
+            Valid st (.shred (.shred b i j) b.slot s true) := by
   obtain ⟨l, h1, h2⟩ := answer_held_verifies sd b blk hs hcap hheld
   refine ⟨l, h1, ?_⟩
   intro i hi
   obtain ⟨root, π, a1, a2, a3⟩ := h2 i hi
   refine ⟨root, π, a1, a2, ?_⟩
   intro j hj
-  obtain ⟨s, s1, s2, s3, s4⟩ := a3 j hj
-  exact ⟨s, s1, s2, s3, s4, fun st hst => ⟨rfl, s2, s3, by rw [hst, s4], rfl⟩⟩
+  obtain ⟨s, s1, s2, s3, s4, s5⟩ := a3 j hj
+  refine ⟨s, s1, s2, s3, s4, s5, fun st hst hlst => ⟨rfl, s2, s3, by rw [hst, s4], ?_, rfl⟩⟩
+  rw [s5, hlst]
+  apply decide_eq_decide.mpr
+  constructor
+  · intro h; rw [h]
+  · intro h; injection h with h; exact h.symm
 
 /-- **The responder is total: never a panic, a NACK for what it cannot serve.** For every slot data
     satisfying the blockstore invariant: every request (any kind, block id, indices) is answered — the
@@ -190,7 +205,7 @@ theorem repair_task_never_panics (env : Nat → Content) (cap : Nat) (evs : List
       StoreInv cap (run env cap σ evs).1.store := run_no_panic env cap evs σ hk hs
 
 
-/-! ### 4. the hypothesis `Admissible` is necessary; non-vacuity -/
+/-! ### 4. fix D26; what is left of the hypothesis `Admissible` is necessary; non-vacuity -/
 
 /-- the two-slice block of `Props/C13.lean` (slot 5, parent (3, #7)) is a correct leader's block -/
 theorem exB_wf : exB.WF exEnv 3 :=
@@ -214,7 +229,7 @@ def schedHonest : List Ev :=
 
 /-- a Byzantine leader signed slice 0 (same root) also with the last-slice marker; a hostile peer
     answers `Shred(id, 0, 0)` with that shred: right slot / slice / index, the proven slice root, a
-    valid leader signature -/
+    valid leader signature (known finding D26, fixed: the requester now drops it) -/
 def evilLast : Ev := .resp (.shred (.shred exBid 0 0) 5 { exB.shred 0 0 with isLast := true } true)
 /-- a hostile peer flips the unauthenticated data/coding tag (D15) of the genuine shred (0, 0) -/
 def evilTag : Ev := .resp (.shred (.shred exBid 0 0) 5 { exB.shred 0 0 with ty := false } true)
@@ -231,18 +246,46 @@ theorem honest_schedule_completes :
     (run exEnv 3 ⟨RepairSt.init, []⟩ schedHonest).2.all (fun o => !o.panic) = true := by
   decide +kernel
 
-/-- **`Admissible` cannot be dropped — last-slice marker (new finding).** All events but one are the
-    holder's answers, every request is answered correctly while outstanding, and the one hostile shred
-    passes every check of `handle_response` (it removes the request). Afterwards *no request is
-    outstanding and the block is not stored*: the repair spot cached the commitment with the last-slice
-    marker, so every genuine shred of slice 0 is `Equivocation`, slice 0 never reconstructs and nothing
-    retries. One response of one hostile peer (with a shred the Byzantine leader signed) permanently
-    derails the repair of a block that honest peers hold. -/
-theorem derail_by_last_marker :
+/-- **Fix D26 — the last-slice marker no longer derails the repair.** The schedule that used to be the
+    witness `derail_by_last_marker`: all events but one are the holder's answers, and a hostile peer
+    answers `Shred(id, 0, 0)` with the shred of slice 0 that the Byzantine leader also signed with the
+    last-slice marker (right slot / slice / index, the proven slice root, valid leader signature). The
+    requester proved through `LastSliceRoot` that slice 1 is the last one, so the response is now dropped:
+    the request is still outstanding after it, that step stores and announces nothing, and at the end of
+    the very same schedule nothing is outstanding, the block is stored under its id, announced exactly
+    once, and no step panicked. -/
+theorem last_marker_no_longer_derails :
     Req.shred exBid 0 0 ∈ (run exEnv 3 ⟨RepairSt.init, []⟩ ((schedWith evilLast).take 3)).1.st.outstanding ∧
-    Req.shred exBid 0 0 ∉ (run exEnv 3 ⟨RepairSt.init, []⟩ ((schedWith evilLast).take 4)).1.st.outstanding ∧
+    Req.shred exBid 0 0 ∈ (run exEnv 3 ⟨RepairSt.init, []⟩ ((schedWith evilLast).take 4)).1.st.outstanding ∧
+    (run exEnv 3 ⟨RepairSt.init, []⟩ ((schedWith evilLast).take 4)).2.getLast? = some {} ∧
     (run exEnv 3 ⟨RepairSt.init, []⟩ (schedWith evilLast)).1.st.outstanding = [] ∧
-    getBlock (storeGet 3 (run exEnv 3 ⟨RepairSt.init, []⟩ (schedWith evilLast)).1.store 5) exBid.hash = none := by
+    getBlock (storeGet 3 (run exEnv 3 ⟨RepairSt.init, []⟩ (schedWith evilLast)).1.store 5) exBid.hash = some exB.block ∧
+    ((run exEnv 3 ⟨RepairSt.init, []⟩ (schedWith evilLast)).2.filter
+      (fun o => decide (o.poolAdd = some (exBid, exB.fparent)))).length = 1 ∧
+    (run exEnv 3 ⟨RepairSt.init, []⟩ (schedWith evilLast)).2.all (fun o => !o.panic) = true ∧
+    (storeGet 3 (run exEnv 3 ⟨RepairSt.init, []⟩ (schedWith evilLast)).1.store 5).misbehaved = false := by
+  decide +kernel
+
+/-- the same, the other way round: the last slice signed *without* the marker is dropped as well -/
+def evilNotLast : Ev := .resp (.shred (.shred exBid 1 0) 5 { exB.shred 1 0 with isLast := false } true)
+
+theorem missing_last_marker_rejected :
+    (stepEv exEnv 3 (run exEnv 3 ⟨RepairSt.init, []⟩ ((schedWith evilLast).take 69)).1 evilNotLast).2 = {} ∧
+    Req.shred exBid 1 0 ∈ (run exEnv 3 ⟨RepairSt.init, []⟩ ((schedWith evilLast).take 69)).1.st.outstanding ∧
+    Req.shred exBid 1 0 ∈
+      (stepEv exEnv 3 (run exEnv 3 ⟨RepairSt.init, []⟩ ((schedWith evilLast).take 69)).1 evilNotLast).1.st.outstanding := by
+  decide +kernel
+
+/-- **Why the check is needed (the old behaviour, at the blockstore).** Had the shred with the wrong
+    marker been handed to `add_shred_from_repair` (as `handle_response` did before fix D26), the repair
+    spot would have cached its commitment and marked slice 0 as last: the genuine shreds of slice 0 and
+    of slice 1 are then rejected as `Equivocation` — and each of their requests was consumed by its
+    (valid) response, so nothing retried. -/
+theorem last_marker_would_poison :
+    (addRepair exEnv (addRepair exEnv (SlotData.new 3 5) exBid.hash { exB.shred 0 0 with isLast := true }).1
+      exBid.hash (exB.shred 0 1)).2.1 = .err .equivocation ∧
+    (addRepair exEnv (addRepair exEnv (SlotData.new 3 5) exBid.hash { exB.shred 0 0 with isLast := true }).1
+      exBid.hash (exB.shred 1 0)).2.1 = .err .equivocation := by
   decide +kernel
 
 /-- **`Admissible` cannot be dropped — data/coding tag (consequence of the known finding D15).** Same
@@ -256,15 +299,36 @@ theorem derail_by_tag :
     (storeGet 3 (run exEnv 3 ⟨RepairSt.init, []⟩ (schedWith evilTag)).1.store 5).misbehaved = true := by
   decide +kernel
 
-/-- the two hostile events are exactly what `Admissible` excludes; the holder's answers are admissible -/
-theorem evil_not_admissible : ¬ Admissible exB evilLast ∧ ¬ Admissible exB evilTag := by
+/-- What `Admissible` excludes and what it does not: the shred with the other last-slice marker is
+    admissible (the code rejects it, nothing needs to be assumed about it); the flipped tag is exactly
+    what is still excluded; the holder's answers are admissible (`honest_step`). -/
+theorem evilLast_admissible : Admissible exB evilLast ∧ Admissible exB evilNotLast := by
   constructor
-  · intro h
-    have := h rfl rfl rfl rfl rfl
-    simp [HBlock.shred, HBlock.isLast, exB] at this
-  · intro h
-    have := h rfl rfl rfl rfl rfl
-    simp [HBlock.shred] at this
+  · intro _ _ _ _ _ h
+    simp [HBlock.shred, HBlock.isLast, exB] at h
+  · intro _ _ _ _ _ h
+    simp [HBlock.shred, HBlock.isLast, exB] at h
+
+theorem evilTag_not_admissible : ¬ Admissible exB evilTag := by
+  intro h
+  have := (h rfl rfl rfl rfl rfl rfl).2
+  simp [HBlock.shred] at this
+
+/-- The size-class part of `Admissible` is a typing constraint of the model's encoding: `sz` abstracts
+    the payload length, and the payload of a shred is what its Merkle path to the slice root
+    authenticates, so a shred that verifies under the leader's root at index `j` has the leader's
+    payload. In the model's wider response type `sz` is a free attribute, and a shred with the right
+    commitment and a different size class would make the layout check of slice 0 fail for good. -/
+def evilSz : Ev := .resp (.shred (.shred exBid 0 0) 5 { exB.shred 0 0 with sz := 4 } true)
+
+theorem size_class_witness :
+    ¬ Admissible exB evilSz ∧
+    (run exEnv 3 ⟨RepairSt.init, []⟩ (schedWith evilSz)).1.st.outstanding = [] ∧
+    getBlock (storeGet 3 (run exEnv 3 ⟨RepairSt.init, []⟩ (schedWith evilSz)).1.store 5) exBid.hash = none := by
+  refine ⟨?_, by decide +kernel⟩
+  intro h
+  have := (h rfl rfl rfl rfl rfl rfl).1
+  simp [HBlock.shred, exB] at this
 
 /-- The `root ≠ 0` part of `Admissible` is a typing constraint of the model's encoding, not an
     assumption about peers: data id `0` is the empty byte string of the padding leaves
